@@ -97,7 +97,12 @@ def handle (cmd : String) (args : List Int) : Option String :=
       match modelRadius F fle v c els q r, distances F c els q with
       | some ans, some D =>
         let rin := radiusIn F v c.kind c.sys r
-        let tie := D.any (fun d => decide (Float.abs (d - rin) < tieEps))
+        -- boundary of the answer set: `rin`, or π for haversine radii beyond π (no great-circle
+        -- distance exceeds π — `hav_range` — so every such radius is the same query as π; an
+        -- element within 1e-9 of the antipode is then a boundary tie, where the float haversine
+        -- formula is ill-conditioned)
+        let rt := if c.metric == .haversine && decide (F.pi < rin) then F.pi else rin
+        let tie := D.any (fun d => decide (Float.abs (d - rt) < tieEps))
         let spec := radiusSpecB fle D rin idx
         let bRange := idx.all (fun i => decide (i < D.length))
         let bNodup := decide idx.Nodup
